@@ -487,7 +487,9 @@ func TestC10Templates(t *testing.T) {
 		shapes = append(shapes, pre+"_")
 	}
 	shapes = append(shapes, "_ ? o1 : o2", "o1 ? _ : o2", "o1 ? o2 : _", "[_]", "[_, o1, o2]", "[o1, _, o2]", "[o1, o2, _]", "f(_)", "f(_, o1, o2)", "f(o1, _, o2)", "f(o1, o2, _)", "f(o1, _...)", "g.h(_)", "g.h.i(o1, _)",
-		"(_)", "$t = _", "$t = $u = _", "o1, _", "_(o1)", "_(_)", "f(g(_))", "[[_]]", "f([_], g(o1, _))", "(o1 ? [_] : f(_)) + o2", "$t = _, $t + _")
+		"(_)", "$t = _", "$t = $u = _", "o1, _", "_(o1)", "_(_)", "f(g(_))", "[[_]]", "f([_], g(o1, _))", "(o1 ? [_] : f(_)) + o2", "$t = _, $t + _",
+		// a local that the formula itself binds, read as a path before and after the binding: a path is a path
+		"$x = o1, _", "_, $x = o1", "$p = o1, [_, $p.q, $p.z]", "f($x = o1, [_, typeof _])", "($p = o1) ? _ : $p.q.r", "$x = $p = o1, [_, $x.k, $p.q.r]", "$a$ = _, $a$.k")
 	var idx int64
 	for _, sh := range shapes {
 		for _, inner := range append([]string{""}, shapes[60:70]...) {
